@@ -828,7 +828,8 @@ def fault_expand(ids, rng, base, nf):
     for k in ks:
         s = {kk: v for kk, v in base.items() if not kk.startswith("_")}
         s["id"] = ids.next()
-        s["faults"] = [{"call": base["_target"], "k": k, "effect": False}]
+        # SPI transactions fail either without delivering anything or after delivering half of their bytes
+        s["faults"] = [{"call": base["_target"], "k": k, "effect": base["cfg"].get("iface") == "spi" and rng.random() < 0.35}]
         s["tag"] = base["tag"]
         out.append(s)
     return out
